@@ -26,9 +26,13 @@ SHEET_NAMES = ["S1", "Data", "My & Sheet", "O'Brien", "a<b>", "\u00dcbersicht", 
 URL_FORMS = ["http://h{n}.example/", "http://h{n}.example/p?a={n}&b=2", "https://\u00fcml.example/{n}/\u00e9",
              "mailto:x{n}@example.org?subject=a<b>&body=\"q\"", "file:///C:/dir/it's{n}.xlsx", "http://h{n}.example/#frag",
              "http://h{n}.example/\U0001F600"]
-AUTHORS = ["Ann", "Bob & Co", "<anon>", "\u00c5sa", "", "O'Neil", "\u8457\u8005"]
+AUTHORS = ["Ann", "Bob & Co", "<anon>", "\u00c5sa", "", "O'Neil", "\u8457\u8005", " padded ", "tab\t", "\nlead", " ", "Bob & S\u00f6hne <x> "]
 TEXTS = ["note {n}", "x & y <z> {n}", "line1\nline2 {n}", "\u00e4\u00f6\u00fc {n}", "\"quoted\" {n}", "it's {n}", "\U0001F600 {n}"]
-PROMPTS = ["", "pick {n}", "a & b {n}", "<{n}>", "\u00fcber {n}", "say \"x\" {n}", "it's {n}"]
+PROMPTS = ["", "pick {n}", "a & b {n}", "<{n}>", "\u00fcber {n}", "say \"x\" {n}", "it's {n}", " lead {n}", "trail {n} ", "  both {n}  "]
+TIPS = ["", "", "tip {n}", " padded tip {n} ", "a & b <c> \"d\" {n}", "\u00fcber \U0001F600 {n}", "it's {n}"]
+RUN_EDGES = ["", " ", "\n", "\t", "  ", " \n", "\n\n"]
+BLANK_RUNS = [" ", "\n", "\t", "  \n "]
+CODE_NAMES = ["Sheet{n}", "Tabelle_{n}", "Cod\u00e9{n}", "ThisSheet{n}"]
 HEADERS = ["", "&CPage &P of &N", "&L<left> & \"q\"", "&R\u00dcber {n}", " padded {n} ", "\tx{n}", "&Ctrail{n} \n"]
 FLAG_KEYS = ["sheet", "objects", "scenarios", "formatCells", "formatColumns", "formatRows", "insertColumns", "insertRows",
              "insertHyperlinks", "deleteColumns", "deleteRows", "selectLocked", "selectUnlocked", "sort", "autoFilter", "pivotTables"]
@@ -46,6 +50,34 @@ def col_name(rng):
 
 def quote_sheet(n):
     return "'" + n.replace("'", "''") + "'"
+
+
+def rand_runs(rng, fmt, author):
+    """The text of a comment as a list of runs: a single plain run, or the layout applications write (a bold
+    "Author:" run, then a run that starts with a line feed), with blanks / tabs / line feeds at the edges of runs and
+    runs of white space only."""
+    body = fmt(rng.choice(TEXTS))
+    k = rng.random()
+    if k < 0.35:
+        return [{"t": body, "b": False}]
+    if k < 0.55:
+        return [{"t": rng.choice(RUN_EDGES) + body + rng.choice(RUN_EDGES), "b": False}]
+    runs = [{"t": (author.strip() or "Author") + ":", "b": True}, {"t": "\n" + body + rng.choice(RUN_EDGES), "b": False}]
+    for _ in range(rng.choice([0, 0, 1, 2])):
+        runs.insert(rng.randint(1, len(runs)), {"t": rng.choice(BLANK_RUNS), "b": rng.random() < 0.3})
+    if rng.random() < 0.3:
+        runs.append({"t": rng.choice(RUN_EDGES) + fmt(rng.choice(TEXTS)), "b": False})
+    return runs
+
+
+def norm(case):
+    """Older step forms: a link without a tooltip, a comment given by one text."""
+    for st in case["steps"]:
+        if st["a"] == "AddLink":
+            st.setdefault("tip", "")
+        elif st["a"] == "AddComment" and "runs" not in st:
+            st["runs"] = [{"t": st.pop("text"), "b": False}]
+    return case
 
 
 def rand_case(rng, size):
@@ -86,7 +118,7 @@ def rand_case(rng, size):
                 steps.append({"a": "AddLink", "s": si, "cell": f"{c}{r}", "url": url, "loc": True})
             else:
                 u = fmt(rng.choice(URL_FORMS)) if rng.random() < 0.9 else "http://same.example/"
-                steps.append({"a": "AddLink", "s": si, "cell": f"{c}{r}", "url": u, "loc": False})
+                steps.append({"a": "AddLink", "s": si, "cell": f"{c}{r}", "url": u, "loc": False, "tip": fmt(rng.choice(TIPS))})
         com = set()
         for k in range(rng.choice([0, 1, 2, rng.randint(0, size)])):
             rc = (rng.randint(1, 80), rng.randint(1, 30))
@@ -94,7 +126,7 @@ def rand_case(rng, size):
                 continue
             com.add(rc)
             au = rng.choice(AUTHORS) if rng.random() < 0.9 else "Ann"
-            steps.append({"a": "AddComment", "s": si, "r": rc[0], "c": rc[1], "author": au, "text": fmt(rng.choice(TEXTS))})
+            steps.append({"a": "AddComment", "s": si, "r": rc[0], "c": rc[1], "author": au, "runs": rand_runs(rng, fmt, au)})
         for k in range(rng.choice([0, 1, rng.randint(0, max(1, size // 3))])):
             ty, op, f1, f2 = rng.choice(DV_TYPES)
             steps.append({"a": "AddDv", "s": si, "sqref": f"P{k + 1}:Q{k + 2}" + (f" S{k + 1}" if rng.random() < 0.3 else ""),
@@ -112,8 +144,14 @@ def rand_case(rng, size):
                           "rules": rules})
         if rng.random() < 0.5:
             steps.append({"a": "SetAf", "s": si, "range": f"A1:{col_name(rng)}{rng.randint(2, 99)}"})
+        # code name x tab colour (both live in the sheetPr element), in either order
+        two = []
         if rng.random() < 0.5:
-            steps.append({"a": "SetTab", "s": si, "argb": rng.choice(["FFFF0000", "FF123456", "FF00B050", "80ABCDEF"])})
+            two.append({"a": "SetTab", "s": si, "argb": rng.choice(["FFFF0000", "FF123456", "FF00B050", "80ABCDEF"])})
+        if rng.random() < 0.45:
+            two.append({"a": "SetCodeName", "s": si, "code": fmt(rng.choice(CODE_NAMES))})
+        rng.shuffle(two)
+        steps += two
         if rng.random() < 0.5:
             fz = rng.random() < 0.7
             pane = [{"xs": str(rng.randint(0, 3)), "ys": str(rng.randint(1, 5)), "tl": f"{rng.choice(['B', 'C', 'D'])}{rng.randint(2, 9)}",
@@ -173,6 +211,8 @@ def rand_case(rng, size):
                       "ralg": "", "rhash": "", "rsalt": "", "rspin": 0})
     if rng.random() < 0.7:
         steps.append({"a": "SetActive", "i": rng.randint(0, ns - 1) if rng.random() < 0.9 else ns + 1})
+    if rng.random() < 0.15:
+        steps.append({"a": "SetMacros"})
     steps.append({"a": "SaveLoad", "light": rng.random() < 0.3})
     if rng.random() < 0.3:
         steps.append({"a": "SaveLoad", "light": rng.random() < 0.3})
@@ -218,6 +258,44 @@ def exemplars():
     kf4 = {"steps": [{"a": "Init", "sheets": ["S1"]}, {"a": "SetHf", "s": 1, "h": " padded header ", "f": "&Lfoot"},
                      {"a": "SaveLoad", "light": False}]}
     return [kf1, kf2, kf3, kf4]
+
+
+def sheetpr_and_text_cases():
+    """(1) code name x tab colour x workbook with macros, on neighbouring sheets; (2) comments in the layout applications
+    write, with blanks, tabs and line feeds at the edges of runs, runs of white space only, padded authors; padded
+    tooltips, validation prompts and header/footer."""
+    cases = []
+    for macros in (False, True):
+        for order in (0, 1):
+            steps = [{"a": "Init", "sheets": ["Plain", "Coded", "Both", "Tab only"]}]
+            tab3, code3 = {"a": "SetTab", "s": 3, "argb": "FF654321"}, {"a": "SetCodeName", "s": 3, "code": "Sheet_Both"}
+            steps += [{"a": "SetCodeName", "s": 2, "code": "Sheet_Coded"}] + ([tab3, code3] if order else [code3, tab3])
+            steps += [{"a": "SetTab", "s": 4, "argb": "FFFF0000"}]
+            if macros:
+                steps.append({"a": "SetMacros"})
+            steps += [{"a": "SaveLoad", "light": False}, {"a": "SaveLoad", "light": True}]
+            cases.append({"steps": steps})
+
+    def com(r, c, au, *runs):
+        return {"a": "AddComment", "s": 1, "r": r, "c": c, "author": au, "runs": [{"t": t, "b": b} for t, b in runs]}
+    cases.append({"steps": [
+        {"a": "Init", "sheets": ["S1"]},
+        com(2, 2, "Alice", ("plain text", False)),
+        com(3, 3, "Bob & S\u00f6hne <x>", ("Bob:", True), ("\nplease check this value ", False)),
+        com(4, 4, "Alice", ("left", False), (" ", False), ("right", False)),
+        com(5, 5, " padded author ", (" \tlead and trail\n", False)),
+        com(6, 6, "tab\t", ("\n", False), ("x & y <z> \u00e9", True), ("\t", False)),
+        com(7, 7, "", ("  ", False)),
+        {"a": "SaveLoad", "light": False}, {"a": "SaveLoad", "light": False}]})
+    cases.append({"steps": [
+        {"a": "Init", "sheets": ["S1"]},
+        {"a": "AddLink", "s": 1, "cell": "A1", "url": "http://t.example/", "loc": False, "tip": " padded tip & <x> "},
+        {"a": "AddLink", "s": 1, "cell": "B2", "url": "'S1'!A1", "loc": True, "tip": "\u00fcber tip "},
+        {"a": "AddDv", "s": 1, "sqref": "C1:C9", "type": "list", "op": "between", "blank": True, "showin": True, "showerr": True,
+         "ptitle": " title ", "prompt": "  pick one  ", "etitle": "err ", "emsg": " bad value", "f1": "\"a,b\"", "f2": ""},
+        {"a": "SetHf", "s": 1, "h": " &Cpadded header ", "f": "\tfoot \n"},
+        {"a": "SaveLoad", "light": False}]})
+    return cases
 
 
 def scope_cases():
@@ -291,14 +369,15 @@ def gen_cases(chk):
     n3 = len(cases)
     for k in range(60 if quick else 600):
         cases.append(link_case(rng))
-    sc = scope_cases()
+    sc = scope_cases() + sheetpr_and_text_cases()
     cases += sc
     cases += exemplars()
-    chk.extra["cases"] = {"hyperlink_permutation_cases": len(cases) - n3 - 4 - len(sc), "same_name_in_several_scopes_cases": len(sc),"tlc_paths_2_operations_then_save": n1, "of_all_such_paths": total_paths,
+    chk.extra["cases"] = {"hyperlink_permutation_cases": len(cases) - n3 - 4 - len(sc), "same_name_in_several_scopes_and_sheetpr_and_text_edge_cases": len(sc),"tlc_paths_2_operations_then_save": n1, "of_all_such_paths": total_paths,
                           "tlc_simulated_histories_40_operations": n2 - n1, "generated_workbooks": n3 - n2,
                           "finding_exemplars": 4}
     for i, c in enumerate(cases):
         c["case"] = i
+        norm(c)
     return cases
 
 
@@ -397,4 +476,4 @@ def run(chk):
 def replay(chk, path):
     with open(path) as f:
         rp = json.load(f)
-    judge(chk, [rp["script"]])
+    judge(chk, [norm(rp["script"])])
